@@ -81,8 +81,8 @@ func (f *flatEnc) enc(t types.Type, v Value) {
 		}
 		if ut.Info()&types.IsString != 0 {
 			bs := strBytes(v)
-			if len(bs) > 16 {
-				ex.unsupported("model codec: string longer than 16")
+			if len(bs) > 40 {
+				ex.unsupported("model codec: string longer than 40")
 			}
 			f.out = append(f.out, byteConst(byte(len(bs))))
 			f.out = append(f.out, bs...)
@@ -220,7 +220,7 @@ func (d *flatDec) dec(t types.Type) Value {
 			if d.fail != "" {
 				return ""
 			}
-			if !ex.branch(mkCmp(OpULe, n, byteConst(16)), "codec-strlen") {
+			if !ex.branch(mkCmp(OpULe, n, byteConst(40)), "codec-strlen") {
 				d.fail = "string length out of range"
 				return ""
 			}
